@@ -238,20 +238,30 @@ def c05(r):
     syncer(r, ["C05.", "C02."], crash=True)
 
 
-def submitter(r, prefixes):
+def submitter(r, prefixes, strict=True):
     r.tlc_exhaustive("MCSubmitter.tla", "Submitter.cfg")
     r.tlc_exhaustive("MCSubmitter.tla", "Submitter_live.cfg", workers=8)
     if r.tier == "thorough":
         r.tlc_exhaustive("MCSubmitter.tla", "Submitter_big.cfg", timeout=1500)
     n = 60 if r.tier == "quick" else 300
     beh = r.tlc_simulate("MCSubmitter.tla", "Submitter_sim.cfg", n, 60, name="beh-sub1")
-    t = r.drive("submitter", ["-arg", "1:0"], beh=beh, name="submitter-model-ih1")
-    r.tlc_validate("SubmitTrace", t, prefixes)
+    t1 = r.drive("submitter", ["-arg", "1:0"], beh=beh, name="submitter-model-ih1")
+    r.tlc_validate("SubmitTrace", t1, prefixes)
     beh = r.tlc_simulate("MCSubmitter.tla", "Submitter_sim3.cfg", n, 60, name="beh-sub3")
-    t = r.drive("submitter", ["-arg", "3:2"], beh=beh, name="submitter-model-ih3")
-    r.tlc_validate("SubmitTrace", t, prefixes)
+    t3 = r.drive("submitter", ["-arg", "3:2"], beh=beh, name="submitter-model-ih3")
+    r.tlc_validate("SubmitTrace", t3, prefixes)
     t = r.drive("submitter", name="submitter-scenarios")
     r.tlc_validate("SubmitTrace", t, prefixes)
+    # step-level conformance: every DA call, bookkeeping write, finalize call, stop and restart of the recorded
+    # runs is an action of Submitter.tla (one TLC pass per (initial height, pending limit) combination)
+    def corrupt(ev):
+        if ev.get("ev") == "KV" and ev.get("kind") == "meta" and ev.get("key") == "last-submitted-header-height" and ev.get("h", 0) >= 2:
+            ev = dict(ev)
+            ev["h"] += 1
+            return ev
+        return None
+    for tr in ((t1, t3, t) if (strict or r.tier == "thorough") else ()):
+        r.tlc_strict("SubmitterStrict", tr, ("ih", "limit"), ("IH", "L"), selftest=corrupt if tr is t else None)
 
 
 def c06(r):
@@ -261,7 +271,7 @@ def c06(r):
 
 
 def c07(r):
-    submitter(r, ["C07."])
+    submitter(r, ["C07."], strict=False)
     # the full-node half of C07 ("observed on the DA layer", "eventually reports h, including after a restart"):
     # the real RetrieveLoop / SyncLoop / DAIncluderLoop of a full node under DA fault sequences, restarts and crashes
     for args, name in ((["-arg", "retrieve"], "syncer-retrieve"), ([], "syncer-random"), (["-arg", "crash"], "syncer-crashenum")):
@@ -275,7 +285,7 @@ def c07(r):
 
 
 def c08(r):
-    submitter(r, ["C08."])
+    submitter(r, ["C08."], strict=False)
 
 
 PIPELINES = {"C01": c01, "C04": c04, "C02": c02, "C05": c05, "C06": c06, "C07": c07, "C08": c08, "C03": c03, "C09": c09, "C10": c10, "C11": c11, "C17": c17, "C13": c13, "C14": c14, "C15": c15, "C20": c20, "C16": c16, "C19": c19, "C18": c18, "C12": c12}
